@@ -6,6 +6,7 @@ import (
 	"io/fs"
 	"os"
 	"path/filepath"
+	"sort"
 	"strings"
 
 	"github.com/hashicorp/go-slug/sourceaddrs"
@@ -234,7 +235,9 @@ func c18Check(root string, doc []byte) (res fw.Result) {
 			os.Symlink("/", filepath.Join(d, "slash"))
 			os.WriteFile(filepath.Join(d, "v2", "m", "main.tf"), []byte("m"), 0644)
 		}
-		for _, tail := range []string{"", "x", "x/y.tf", "./x/../z", "a b/c#d", "%41/ü", "deep/er/still/deeper.tf", "x/", "current/m/main.tf", "current", "up/x.tf", "slash/etc/passwd", "v2/m/main.tf", "modules\\net.tf", "back\\slash/x.tf"} {
+		for _, tail := range []string{"", "x", "x/y.tf", "./x/../z", "a b/c#d", "%41/ü", "deep/er/still/deeper.tf", "x/", "current/m/main.tf", "current", "up/x.tf", "slash/etc/passwd", "v2/m/main.tf", "modules\\net.tf", "back\\slash/x.tf", "2024-01-01T10:00:00.tfvars", "c:/d.tf",
+			// names that are not in a Unicode normal form are still just names
+			"caf\u0065\u0301.tf", "mo\u0308dule/x.tf", "\u212bngstr\u00f6m.tf", "\u1e9b\u0323/\uff21.tf"} {
 			p := filepath.Join(d, tail)
 			if tail == "./x/../z" || tail == "x/" {
 				p = d + "/" + tail
@@ -263,6 +266,63 @@ func c18Check(root string, doc []byte) (res fw.Result) {
 					return viol("reverse-lookup-unstable", "SourceForLocalPath(%q) answered %s and then %s", sp, src, again)
 				}
 			}
+		}
+	}
+	// a relative path means what it means when the question is asked: the
+	// working directory has moved since the bundle was opened
+	var sortedDirs []string
+	for d := range dirs {
+		sortedDirs = append(sortedDirs, d)
+	}
+	sort.Strings(sortedDirs)
+	if len(sortedDirs) > 0 && cwd != "" {
+		d0 := sortedDirs[0]
+		for _, nwd := range []string{d0, filepath.Dir(absRoot)} {
+			if fi, err := os.Stat(nwd); err != nil || !fi.IsDir() {
+				continue
+			}
+			if os.Chdir(nwd) != nil {
+				continue
+			}
+			rels := []string{"x/y.tf", "./main.tf", filepath.Base(absRoot) + "/" + filepath.Base(d0) + "/x.tf"}
+			if r0, err := filepath.Rel(cwd, filepath.Join(d0, "x.tf")); err == nil {
+				rels = append(rels, r0) // inside the bundle only as seen from the old working directory
+			}
+			for _, rp := range rels {
+				abs := filepath.Join(nwd, rp)
+				inPkg := false
+				for d := range dirs {
+					if abs == d || strings.HasPrefix(abs, d+"/") {
+						inPkg = true
+					}
+				}
+				var src sourceaddrs.FinalSource
+				var serr error
+				pn, pv := fw.Try(func() { src, serr = b.SourceForLocalPath(rp) })
+				res.Evals++
+				var r *fw.Result
+				switch {
+				case pn:
+					v := viol("reverse-lookup-panic", "SourceForLocalPath(%q) panicked: %s", rp, pv)
+					r = &v
+				case inPkg && serr != nil:
+					v := viol("package-path-reported-foreign", "the working directory is now %s, so %q lies inside a package directory, but SourceForLocalPath fails: %v", nwd, rp, serr)
+					r = &v
+				case !inPkg && serr == nil:
+					v := viol("foreign-path-accepted", "the working directory is now %s, so %q (= %s) is outside every package directory, but SourceForLocalPath returned %s", nwd, rp, abs, src)
+					r = &v
+				case inPkg:
+					if back, berr := b.LocalPathForSource(src); berr != nil || back != abs {
+						v := viol("lookups-not-inverse", "the working directory is now %s: SourceForLocalPath(%q) = %s, whose LocalPathForSource is %q (%v), expected %q", nwd, rp, src, back, berr, abs)
+						r = &v
+					}
+				}
+				if r != nil {
+					os.Chdir(cwd)
+					return *r
+				}
+			}
+			os.Chdir(cwd)
 		}
 	}
 	// foreign paths
